@@ -23,6 +23,10 @@ pub(crate) mod verif {
     /// name, for_type
     Get(PStr, bool),
     Insert(PStr, Location),
+    /// `use_id` was entered for the occurrence at this location (its `Get` follows)
+    UseAt(Location),
+    /// the frame just popped was recorded as the capture set of the lambda at this location
+    LambdaFrame(Location),
   }
 
   pub(crate) static LOG: Mutex<Vec<Event>> = Mutex::new(Vec::new());
@@ -341,6 +345,8 @@ impl<'a> SsaAnalysisState<'a> {
         }
         self.visit_expression(&e.body);
         let (local_defs, captured) = self.context.pop_scope();
+        #[cfg(samlang_verif)]
+        verif::log(verif::Event::LambdaFrame(e.common.loc));
         self.local_scoped_def_locs.insert(e.common.loc, local_defs);
         self.lambda_captures.insert(e.common.loc, captured);
       }
@@ -505,6 +511,8 @@ impl<'a> SsaAnalysisState<'a> {
   }
 
   fn use_id(&mut self, name: &PStr, loc: Location, for_type: bool) {
+    #[cfg(samlang_verif)]
+    verif::log(verif::Event::UseAt(loc));
     if let Some(definition) = self.context.get(name, for_type) {
       self.use_define_map.insert(loc, *definition);
     } else {
